@@ -1224,7 +1224,7 @@ fn generate_literal(
             return Ok(ast::Expression::UnaryOperation(
                 ast::UnaryOp::Minus,
                 Box::new(Located::none(ast::Expression::Literal(
-                    ast::Literal::IntUntyped(-v as u64),
+                    ast::Literal::IntUntyped(u64::from(v.unsigned_abs())),
                 ))),
             ));
         }
